@@ -62,5 +62,5 @@ def run(tier, seed, replay=None):
     return v.finish("model_checking", cov, assumptions=[
         "control messages on one session are delivered in order (memnet FIFO)",
         "concurrent-updates scenario: two updates of one origin released at the same instant through two neighbours, 8 origins per round; a check-then-act window of a few instructions is hit within about 30 rounds on this machine (measured on a seeded change), 600 / 4000 rounds are played",
-        "seenUpdates expiry is not exercised here (expiry time 1 h in these runs)",
+        "seenUpdates expiry: every third segment runs with a 200 ms expiry time and contains expiry steps (the seen table is then empty in NetLocalTrace.tla and every seen_expire event is validated by NodeTrace.tla); the other segments use 1 h",
     ])
